@@ -96,13 +96,17 @@ class ExactAlgorithmPulp(RankAggAlgorithm, PairwiseBasedAlgorithm):
                 bucket = {id_elements[elem]}
                 current_nb_def = nb_defeats
         ranking.append(bucket)
+        att = {ConsensusFeature.NECESSARILY_OPTIMAL: True,
+               ConsensusFeature.ASSOCIATED_ALGORITHM: self.get_full_name(),
+               }
+        # the objective has no value if there is no variable (single element): the score is then computed on demand
+        objective_value = prob.objective.value()
+        if objective_value is not None:
+            att[ConsensusFeature.KEMENY_SCORE] = objective_value
         return Consensus(consensus_rankings=[Ranking(ranking)],
                          dataset=dataset,
                          scoring_scheme=scoring_scheme,
-                         att={ConsensusFeature.NECESSARILY_OPTIMAL: True,
-                              ConsensusFeature.ASSOCIATED_ALGORITHM: self.get_full_name(),
-                              ConsensusFeature.KEMENY_SCORE: prob.objective.value(),
-                              })
+                         att=att)
 
     @staticmethod
     def _add_pulp_variables(nb_elem: int, my_values: List[float],
